@@ -23,6 +23,7 @@ import Rrtk.Thm.Lemmas.C06Profile
 import Rrtk.Thm.Lemmas.Run
 import Rrtk.Thm.Lemmas.IntScalar
 import Rrtk.Thm.Lemmas.Exact
+import Rrtk.Gen.CfgGates
 set_option linter.unusedSectionVars false
 set_option linter.unusedSimpArgs false
 namespace Rrtk.Thm.C19
@@ -1667,5 +1668,27 @@ theorem manual_abs_eq_abs (q : Quantity F) : Quantity.absManual q = Quantity.abs
   · rw [if_pos h, abs_of_nonneg h]
   · rw [if_neg h, abs_of_neg (lt_of_not_ge h)]
 end R
+
+
+/-! ### which builds have dimension checking: the cfg gates regenerated from the source -/
+-- (C19: an unchecked build is one where every gate below is off; C01: a checked build is one where every gate is on)
+theorem dim_gates_nonempty : Gen.dimGates ≠ [] := by decide
+/-- Every `cfg` / `cfg_attr` predicate in the source that mentions dimension checking is, in every build (profile ×
+`dim_check_release` × `dim_check_debug` × any other feature × whatever an unparsed sub-predicate evaluates to), exactly the
+documented rule `dim_check_release ∨ (debug_assertions ∧ dim_check_debug)` or exactly its negation: no item is gated by a
+different condition than the rest, so "checking on" and "checking off" are two consistent worlds and the model's single
+switch `chk` is faithful. The table is regenerated from /repo on every run. -/
+theorem dim_gates_uniform : ∀ g ∈ Gen.dimGates,
+    (∀ dbg rel dbgF o unk : Bool, g.2.2.eval dbg (dimEnv rel dbgF o) unk = checkingOn dbg rel dbgF) ∨
+    (∀ dbg rel dbgF o unk : Bool, g.2.2.eval dbg (dimEnv rel dbgF o) unk = !checkingOn dbg rel dbgF) := by decide
+/-- both polarities occur (there are bodies for "on" and bodies for "off") -/
+theorem dim_gates_both_polarities :
+    (∃ g ∈ Gen.dimGates, g.2.2.eval true (dimEnv true true false) false = true) ∧
+    (∃ g ∈ Gen.dimGates, g.2.2.eval true (dimEnv true true false) false = false) := by decide
+/-- the rule itself: the release feature switches checking on in every profile; the debug feature only with debug
+assertions; without either feature checking is off -/
+theorem checkingOn_table :
+    (∀ dbg dbgF, checkingOn dbg true dbgF = true) ∧ (∀ dbgF, checkingOn false false dbgF = false) ∧
+    checkingOn true false true = true ∧ (∀ dbg, checkingOn dbg false false = false) := by decide
 
 end Rrtk.Thm.C19
